@@ -213,6 +213,15 @@ def replay_rows(model, cls="SinglePhaseReservoir", nx=4, nt=3, schedule=False, t
         problems = _rows_problems(calls, pp, t, nx, fluid, cls)
         if problems:
             return True, {"what": f"{cls} nx={nx}, {what}: " + "; ".join(problems[:2]), "inputs": {k: v for k, v in model.items() if k != "__uf__"}}
+    # logarithmic time grids (the usual grid for scaled-time curves) on finer meshes: the mesh ratio sweeps ten decades, so
+    # every step size at which a solver with a drop or stop threshold changes behaviour is visited
+    tl = np.concatenate([[0.0], np.logspace(-9, 1, 121)])
+    for n in (12, 60):
+        fl = None if cls == "IdealReservoir" else _real_fluid()
+        res, calls = real_capture(cls, n, tl, fl, None if fl is None else np.full(len(tl), 1000.0))
+        problems = _rows_problems(calls, np.asarray(res.pseudopressure, float), tl, n, fl, cls)
+        if problems:
+            return True, {"what": f"{cls} nx={n}, times 0 and logspace(-9, 1, 121): " + "; ".join(problems[:2]), "inputs": {"grid": "logspace(-9, 1, 121)"}}
     return False, {"what": f"{cls} nx={nx}: every row of {len(runs)} real runs is the backward-Euler row", "inputs": {k: v for k, v in model.items() if k != "__uf__"}}
 
 
